@@ -138,9 +138,7 @@ func (s *JSONDB) ReadStatusRecent(dagFile string, n int) []*model.StatusFile {
 		if seen[run] {
 			continue
 		}
-		status, err := s.cache.LoadLatest(file, func() (*model.Status, error) {
-			return ParseFile(file)
-		})
+		file, status, err := s.loadListed(file, s.loadCached)
 		if err != nil {
 			continue
 		}
@@ -151,6 +149,30 @@ func (s *JSONDB) ReadStatusRecent(dagFile string, n int) []*model.StatusFile {
 		})
 	}
 	return ret
+}
+
+func (s *JSONDB) loadCached(file string) (*model.Status, error) {
+	return s.cache.LoadLatest(file, func() (*model.Status, error) {
+		return ParseFile(file)
+	})
+}
+
+// loadListed reads a status file whose name comes from a directory listing.
+// The listing may be older than the directory: when a run ends, Compact
+// replaces <run>.dat by <run>_c.dat, so a file that has disappeared since it
+// was listed is read under its compacted name. It returns the name read.
+func (s *JSONDB) loadListed(
+	file string, load func(string) (*model.Status, error),
+) (string, *model.Status, error) {
+	status, err := load(file)
+	if err != nil && errors.Is(err, os.ErrNotExist) &&
+		!strings.HasSuffix(file, "_c"+extDat) {
+		compacted := strings.TrimSuffix(file, extDat) + "_c" + extDat
+		if st, cerr := load(compacted); cerr == nil {
+			return compacted, st, nil
+		}
+	}
+	return file, status, err
 }
 
 // runKey identifies the run a status file belongs to: the original file and
@@ -168,10 +190,7 @@ func (s *JSONDB) ReadStatusToday(dagFile string) (*model.Status, error) {
 	// killed before its first status was written: fall back to the next one.
 	var lastErr error
 	for _, file := range files {
-		file := file
-		status, err := s.cache.LoadLatest(file, func() (*model.Status, error) {
-			return ParseFile(file)
-		})
+		_, status, err := s.loadListed(file, s.loadCached)
 		if err == nil {
 			return status, nil
 		}
@@ -196,7 +215,7 @@ func (s *JSONDB) FindByRequestID(dagFile string, requestID string) (*model.Statu
 	}
 	sort.Sort(sort.Reverse(sort.StringSlice(matches)))
 	for _, f := range matches {
-		status, err := ParseFile(f)
+		f, status, err := s.loadListed(f, ParseFile)
 		if err != nil {
 			log.Printf("parsing failed %s : %s", f, err)
 			continue
